@@ -37,12 +37,14 @@ theorem cont_msgHyp (cfg : Cfg) (m : InMsg) (hm : NoResetIn m) : MsgHyp (fun o =
   onLogon := by intro _ _ _; simp
   ro := Or.inr hm
 
-theorem cont_evOK (e : Ev) (h : NoResetEv e) : EvOK (fun o => o ≠ Obs.reset) StoreMono NoResetIn e := by
+theorem cont_evOK (cfg : Cfg) (hc : cfg.resetSeqTime = none) (e : Ev) (h : NoResetEv e) :
+    EvOK (fun o => o ≠ Obs.reset) StoreMono NoResetIn cfg e := by
   cases e with
   | incomingMsg o => intro x hx; subst hx; exact h
   | arrive m => exact h
   | send m => exact Or.inr h
   | sessionTime a b => exact Or.inl h
+  | resetTime now => exact Or.inr hc
   | _ => trivial
 
 /-- continuity from any state whose buffered / stashed messages negotiate no reset -/
@@ -51,7 +53,8 @@ theorem continuity_run (s : Sess) (evs : List Ev) (hcfg : NoResetOptions s.cfg) 
     (∀ o ∈ _root_.traceOf s evs, o ≠ Obs.reset) ∧ StoreMono s.store (_root_.runEvents s evs).store
       ∧ PoolInv NoResetIn (_root_.runEvents s evs) ∧ (_root_.runEvents s evs).cfg = s.cfg := by
   have := run_good (N := fun o => o ≠ Obs.reset) (S := StoreMono) (P := NoResetIn) s evs
-    (fun m hm => cont_msgHyp s.cfg m hm) (Or.inr hcfg) hpool (fun e he => cont_evOK e (hev e he))
+    (fun m hm => cont_msgHyp s.cfg m hm) (Or.inr hcfg.1) hpool
+    (fun e he => cont_evOK s.cfg hcfg.2 e (hev e he))
   exact ⟨this.1, this.2.1, this.2.2.2, this.2.2.1⟩
 
 /-! ## the reset Logon -/
